@@ -1,4 +1,5 @@
 import SFV.Model.Sh
+import SFV.Model.FS
 import SFV.Gen.CmdTemplates
 import SFV.Model.Proto
 open SFV SFV.Proto SFV.Sh
@@ -15,6 +16,21 @@ def showRes : Res → String
   | .unterminated => "unterminated"
   | .subst => "subst"
 
+/-- a file system from the lists of its directories and files (paths as `/`-separated strings below the root) -/
+def mkFS (dirs files : List String) : FS.FS := fun q =>
+  let s := "/".intercalate q
+  if q = [] then some .dir else if dirs.contains s then some .dir else if files.contains s then some (.file []) else none
+
+def prefixes (p : List String) : List (List String) := (List.range p.length).map (fun i => p.take (i + 1))
+
+def showFs (r : Option FS.FS) (p : List String) : String :=
+  match r with
+  | none => "error"
+  | some fs => "ok " ++ String.join ((prefixes p).map (fun q => if FS.isDir fs q then "1" else "0"))
+
+def splitAtTok (tok : String) (l : List String) : List String × List String :=
+  (l.takeWhile (· ≠ tok), (l.dropWhile (· ≠ tok)).drop 1)
+
 def handle : List String → String
   | "render" :: name :: args =>
       match Gen.Cmd.table.lookup name, args.mapM unhexL with
@@ -28,6 +44,17 @@ def handle : List String → String
       match Gen.Cmd.table.lookup name with
       | some t => toString (allShQuoted t)
       | none => "bad-op"
+  | "fsmkdir" :: par :: eok :: ph :: rest =>
+      -- fsmkdir <parents> <exist_ok> <path> D <dirs…> F <files…>
+      let (ds, fs) := splitAtTok "F" (rest.drop 1)
+      match stringOfHex ph, ds.mapM stringOfHex, fs.mapM stringOfHex with
+      | some p, some ds, some fs =>
+          let path := (p.splitOn "/").filter (· ≠ "")
+          let fsys := mkFS ds fs
+          let l := FS.localMkdir (path.length - 1) fsys path (par == "1") (eok == "1")
+          let r := FS.remoteMkdir fsys path (par == "1") (eok == "1")
+          s!"L {showFs l path} R {showFs r path}"
+      | _, _, _ => "bad-op"
   | ["lex", h] =>
       match unhexL h with
       | some s => showRes (lexLine s)
